@@ -85,21 +85,60 @@ Proof.
   - intros H; inversion H; subst. apply ci_root; auto.
 Qed.
 
-Lemma parents_total s : Inv s -> forall f p i,
-  lookup (meta s) p = Some i -> i_id i < f -> exists l, parents f (meta s) p = POk l.
+Lemma parents_mono f : forall m p l, parents f m p = POk l -> parents (S f) m p = POk l.
 Proof.
-  intros I. induction f as [|f IH]; intros p i L Lt; [lia|]. simpl. rewrite L.
-  destruct (i_parent i) as [q|] eqn:P; [|eauto].
-  pose proof (inv_par _ I _ _ (lookup_in _ _ _ L)) as PO. unfold parent_ok in PO. rewrite P in PO.
-  destruct PO as [pi [LP [_ Lt']]]. destruct (IH q pi LP) as [l R]; [lia|]. rewrite R. eauto.
+  induction f as [|f IH]; intros m p l; [discriminate|]. intros H. simpl in H.
+  change (parents (S (S f)) m p) with
+    (match lookup m p with
+     | None => PMissing
+     | Some i => match i_parent i with
+                 | None => POk [i_id i]
+                 | Some q => match parents (S f) m q with POk l => POk (i_id i :: l) | r => r end
+                 end
+     end).
+  destruct (lookup m p) as [i|]; [|discriminate]. destruct (i_parent i) as [q|]; [|exact H].
+  destruct (parents f m q) as [l'| |] eqn:R; try discriminate. rewrite (IH _ _ _ R). exact H.
+Qed.
+
+Lemma lookup_app_r pre t p : ~ In p (map fst pre) -> lookup (pre ++ t) p = lookup t p.
+Proof.
+  induction pre as [|[n i] pre IH]; simpl; intros H; auto.
+  destruct (Nat.eqb_spec n p); [exfalso; apply H; left; exact e|]. apply IH. intros F. apply H. right. exact F.
+Qed.
+
+(* the chain walk terminates because the metadata list is topologically sorted *)
+Lemma parents_topo t : forall pre, NoDup (map fst (pre ++ t)) -> topo t ->
+  forall p i, lookup t p = Some i -> exists l, parents (S (length t)) (pre ++ t) p = POk l.
+Proof.
+  induction t as [|[n i0] t IH]; intros pre ND T p i L; [discriminate|].
+  destruct T as [T1 T2]. simpl in L.
+  assert (ND' : NoDup (map fst ((pre ++ [(n, i0)]) ++ t))) by (rewrite <- app_assoc; exact ND).
+  assert (EQ : (pre ++ [(n, i0)]) ++ t = pre ++ (n, i0) :: t) by (rewrite <- app_assoc; reflexivity).
+  destruct (Nat.eqb_spec n p) as [E|NE].
+  - subst n. inversion L; subst i0. clear L.
+    assert (NP : ~ In p (map fst pre)).
+    { rewrite map_app in ND. simpl in ND. apply NoDup_remove_2 in ND. intros F. apply ND. apply in_or_app. left. exact F. }
+    assert (LM : lookup (pre ++ (p, i) :: t) p = Some i).
+    { rewrite lookup_app_r; auto. simpl. rewrite Nat.eqb_refl. reflexivity. }
+    change (length ((p, i) :: t)) with (S (length t)).
+    change (parents (S (S (length t))) (pre ++ (p, i) :: t) p) with
+      (match lookup (pre ++ (p, i) :: t) p with
+       | None => PMissing
+       | Some j => match i_parent j with
+                   | None => POk [i_id j]
+                   | Some q => match parents (S (length t)) (pre ++ (p, i) :: t) q with POk l => POk (i_id j :: l) | r => r end
+                   end
+       end).
+    rewrite LM. destruct (i_parent i) as [q|]; [|eauto].
+    destruct T1 as [qi LQ]. destruct (IH _ ND' T2 q qi LQ) as [l R]. rewrite EQ in R. rewrite R. eauto.
+  - destruct (IH _ ND' T2 p i L) as [l R]. rewrite EQ in R. exists l. apply parents_mono. exact R.
 Qed.
 
 Lemma parents_never_stuck s p i : Inv s -> lookup (meta s) p = Some i ->
   exists l, parents (fuel_of s) (meta s) p = POk l /\ chain_ids (meta s) p l.
 Proof.
-  intros I L. destruct (parents_total s I (fuel_of s) p i L) as [l R].
-  - unfold fuel_of. pose proof (inv_le _ I _ _ (lookup_in _ _ _ L)). lia.
-  - exists l. split; auto. apply parents_chain with (f := fuel_of s). exact R.
+  intros I L. destruct (parents_topo (meta s) [] (inv_names _ I) (inv_topo _ I) p i L) as [l R]. simpl in R.
+  exists l. split; [exact R|]. apply parents_chain with (f := fuel_of s). exact R.
 Qed.
 
 Lemma chain_ids_cons m key x p l : lookup m key = None -> chain_ids m p l -> chain_ids ((key, x) :: m) p l.
@@ -160,12 +199,12 @@ Lemma prepare_cases s key parent l mok cbad lm :
      let id := S (seq s) in
      ( (exists s2, ((l_target lm = None /\ s2 = s1) \/ (l_target lm <> None /\ mok = false /\ s2 = fs_mount s1 id lm false)) /\
                    s' = fst (mounts_of cbad s2 sn parent) /\ r = snd (mounts_of cbad s2 sn parent))
-       \/ (exists t, l_target lm = Some t /\ mok = true /\ lookup (meta s1) t = None /\ r = RTargetExists /\
+       \/ (exists t np, l_target lm = Some t /\ mok = true /\ lookup (meta s1) t = None /\ r = RTargetExists /\
              s' = emit (set_meta (fs_mount s1 id lm true)
-                                 ((t, mkI id KCommitted parent (set_remote l)) :: del (meta s1) key)) (EvRemoteCommit id))
+                                 ((t, mkI id KCommitted np (set_remote l)) :: del (meta s1) key)) (EvRemoteCommit id))
        \/ (exists t j, l_target lm = Some t /\ mok = true /\ lookup (meta s1) t = Some j /\ r = RTargetExists /\
              s' = fs_mount s1 id lm true)
-       \/ (exists t, l_target lm = Some t /\ mok = true /\ bad_name t = true /\ r = RErr EOther /\
+       \/ (exists t e, l_target lm = Some t /\ mok = true /\ e <> EExists /\ r = RErr e /\
              s' = fs_mount s1 id lm true) )).
 Proof.
   unfold do_prepare.
@@ -189,22 +228,25 @@ Proof.
   assert (C2 : closed s2 = false) by reflexivity.
   unfold commit_active. rewrite C2, M2, LK1. cbn [i_id i_kind i_parent negb andb].
   destruct (bad_name t) eqn:BN.
-  { right. right. exists t. simpl. auto. }
+  { right. right. exists t, EOther. simpl. split; [reflexivity|]. split; [reflexivity|]. split; [discriminate|]. auto. }
   destruct (lookup (meta s1) t) as [j|] eqn:LT1.
   { right. left. exists t, j. simpl. auto. }
-  left. exists t. split; [reflexivity|]. split; [reflexivity|]. split; [exact LT1|].
   cbn [kind_eqb negb].
-  assert (PE : match parent with
-               | Some p => match lookup (meta s1) p with
-                           | Some pi => if kind_eqb (i_kind pi) KCommitted then None else Some EFailedPre
-                           | None => Some ENotFound
-                           end
-               | None => None
-               end = None).
-  { destruct parent as [p|]; auto. destruct PR as [pi [LP [KP _]]].
-    unfold s1, created. simpl. destruct (Nat.eqb_spec key p); [subst; congruence|].
-    rewrite LP, KP. reflexivity. }
-  rewrite PE. simpl. split; reflexivity.
+  destruct (commit_parent parent (l_wp (set_remote l))) as [e|np] eqn:CP.
+  { right. right. exists t, e. simpl. split; [reflexivity|]. split; [reflexivity|]. split; [|auto].
+    unfold commit_parent in CP. destruct parent as [p|]; [|discriminate].
+    destruct (l_wp (set_remote l)) as [q|]; [|discriminate]. destruct (Nat.eqb p q); inversion CP. discriminate. }
+  destruct (match np with
+            | Some p => match lookup (meta s1) p with
+                        | Some pi => if kind_eqb (i_kind pi) KCommitted then None else Some EFailedPre
+                        | None => Some ENotFound
+                        end
+            | None => None
+            end) as [e|] eqn:PE.
+  { right. right. exists t, e. simpl. split; [reflexivity|]. split; [reflexivity|]. split; [|auto].
+    destruct np as [p|]; [|discriminate]. destruct (lookup (meta s1) p) as [pi|]; [|inversion PE; discriminate].
+    destruct (kind_eqb (i_kind pi) KCommitted); inversion PE. discriminate. }
+  left. exists t, np. simpl. auto.
 Qed.
 
 (* ---------- events of one step; unmount discipline ---------- *)
@@ -285,13 +327,13 @@ Proof.
       destruct S2 as [[_ ->]|[_ [_ ->]]].
       * eapply quiet_ext with (E0 := []); [ | |exact L2|exact Q2]; [simpl; rewrite app_nil_r; reflexivity|qt].
       * eapply quiet_ext with (E0 := [EvMount (S (seq s)) lm false]); [ | |exact L2|exact Q2]; [reflexivity|qt].
-    + destruct B2 as [t [_ [_ [_ [_ E']]]]]. rewrite E'.
+    + destruct B2 as [t [np [_ [_ [_ [_ E']]]]]]. rewrite E'.
       exists [EvMount (S (seq s)) lm true; EvRemoteCommit (S (seq s))]. split.
       * simpl. rewrite <- app_assoc. reflexivity.
       * apply selfd_quiet. qt.
     + destruct B3 as [t [j [_ [_ [_ [_ E']]]]]]. rewrite E'.
       exists [EvMount (S (seq s)) lm true]. split; [reflexivity|]. apply selfd_quiet. qt.
-    + destruct B4 as [t [_ [_ [_ [_ E']]]]]. rewrite E'.
+    + destruct B4 as [t [e4 [_ [_ [_ [_ E']]]]]]. rewrite E'.
       exists [EvMount (S (seq s)) lm true]. split; [reflexivity|]. apply selfd_quiet. qt.
   - (* View *)
     unfold do_view. destruct (create_snapshot s KView key parent l) as [s1 [e|sn]] eqn:CS.
@@ -386,9 +428,9 @@ Proof.
       destruct S2 as [[_ ->]|[_ [_ ->]]].
       * eapply mounts_of_avail with (E0 := []); eauto. simpl. rewrite app_nil_r. reflexivity.
       * eapply mounts_of_avail with (E0 := [EvMount (S (seq s)) lm false]); eauto.
-    + destruct B2 as [t [_ [_ [_ [R _]]]]]. rewrite R. discriminate.
+    + destruct B2 as [t [np [_ [_ [_ [R _]]]]]]. rewrite R. discriminate.
     + destruct B3 as [t [j [_ [_ [_ [R _]]]]]]. rewrite R. discriminate.
-    + destruct B4 as [t [_ [_ [_ [R _]]]]]. rewrite R. discriminate.
+    + destruct B4 as [t [e4 [_ [_ [_ [R _]]]]]]. rewrite R. discriminate.
   - (* View *)
     unfold do_view. destruct (create_snapshot s KView key parent l) as [s1 [e|sn]] eqn:CS.
     + simpl. discriminate.
@@ -468,9 +510,9 @@ Proof.
       { destruct S2 as [[_ ->]|[_ [_ ->]]]; reflexivity. }
       destruct (created_lower _ _ _ _ _ _ _ _ _ CS M2 R) as [i [A [B C]]].
       exists key, i, sn. auto.
-    + destruct B2 as [t [_ [_ [_ [R _]]]]]. rewrite R. discriminate.
+    + destruct B2 as [t [np [_ [_ [_ [R _]]]]]]. rewrite R. discriminate.
     + destruct B3 as [t [j [_ [_ [_ [R _]]]]]]. rewrite R. discriminate.
-    + destruct B4 as [t [_ [_ [_ [R _]]]]]. rewrite R. discriminate.
+    + destruct B4 as [t [e4 [_ [_ [_ [R _]]]]]]. rewrite R. discriminate.
   - (* View *)
     unfold do_view. destruct (create_snapshot s KView key parent l) as [s1 [e|sn]] eqn:CS.
     + simpl. discriminate.
@@ -691,7 +733,7 @@ Proof.
       * inversion H; subst id. split; [simpl; lia|]. intros _ _. unfold mounted, s2, fs_mount. simpl. rewrite Nat.eqb_refl. reflexivity.
     + destruct B3 as [t [j [_ [_ [_ [_ E']]]]]]. rewrite E'.
       pose proof (create_ok _ _ _ _ _ _ _ CS) as [C0 _]. apply rinv_mount. apply rinv_created; auto.
-    + destruct B4 as [t [_ [_ [_ [_ E']]]]]. rewrite E'.
+    + destruct B4 as [t [e4 [_ [_ [_ [_ E']]]]]]. rewrite E'.
       pose proof (create_ok _ _ _ _ _ _ _ CS) as [C0 _]. apply rinv_mount. apply rinv_created; auto.
   - (* View *)
     unfold do_view. destruct (create_snapshot s KView key parent l) as [s1 [e|sn]] eqn:CS.
@@ -820,13 +862,13 @@ Proof.
       destruct S2 as [[_ ->]|[_ [_ ->]]].
       * apply mounts_of_fail with (E0 := []); [simpl; rewrite app_nil_r; reflexivity|intros j b []].
       * apply mounts_of_fail with (E0 := [EvMount (S (seq s)) lm false]); [reflexivity|apply N1; exact I].
-    + destruct B2 as [t [_ [_ [_ [_ E']]]]]. rewrite E'. intros H. exfalso.
+    + destruct B2 as [t [np [_ [_ [_ [_ E']]]]]]. rewrite E'. intros H. exfalso.
       eapply NO with (E := [EvMount (S (seq s)) lm true] ++ [EvRemoteCommit (S (seq s))]); [| |exact H].
       * simpl. rewrite <- app_assoc. reflexivity.
       * apply nocheck_app; apply N1; exact I.
     + destruct B3 as [t [j [_ [_ [_ [_ E']]]]]]. rewrite E'. intros H. exfalso.
       eapply NO with (E := [EvMount (S (seq s)) lm true]); [ | |exact H]; [reflexivity|apply N1; exact I].
-    + destruct B4 as [t [_ [_ [_ [_ E']]]]]. rewrite E'. intros H. exfalso.
+    + destruct B4 as [t [e4 [_ [_ [_ [_ E']]]]]]. rewrite E'. intros H. exfalso.
       eapply NO with (E := [EvMount (S (seq s)) lm true]); [ | |exact H]; [reflexivity|apply N1; exact I].
   - (* View *)
     unfold do_view. destruct (create_snapshot s KView key parent l) as [s1 [e|sn]] eqn:CS.
@@ -895,9 +937,9 @@ Proof.
     + intros H. left. destruct Sh. auto.
     + destruct B1 as [s2 [S2 [E' _]]]. rewrite E'. intros H. apply MO in H.
       destruct S2 as [[_ ->]|[_ [_ ->]]]; apply (CR KActive key parent l); exact H.
-    + destruct B2 as [t [_ [_ [_ [_ E']]]]]. rewrite E'. intros H. apply (CR KActive key parent l). exact H.
+    + destruct B2 as [t [np [_ [_ [_ [_ E']]]]]]. rewrite E'. intros H. apply (CR KActive key parent l). exact H.
     + destruct B3 as [t [j [_ [_ [_ [_ E']]]]]]. rewrite E'. intros H. apply (CR KActive key parent l). exact H.
-    + destruct B4 as [t [_ [_ [_ [_ E']]]]]. rewrite E'. intros H. apply (CR KActive key parent l). exact H.
+    + destruct B4 as [t [e4 [_ [_ [_ [_ E']]]]]]. rewrite E'. intros H. apply (CR KActive key parent l). exact H.
   - unfold do_view. destruct (create_snapshot s KView key parent l) as [s1 [e|sn]] eqn:CS.
     + simpl. apply create_err in CS. destruct CS as [E [Sh _]]. destruct Sh. auto.
     + pose proof (create_ok _ _ _ _ _ _ _ CS) as OK. destruct OK as [_ [_ [_ [_ [E1 _]]]]].
